@@ -16,6 +16,7 @@ import (
 	_ "verifengine/props/c13"
 	_ "verifengine/props/c14"
 	_ "verifengine/props/c16"
+	_ "verifengine/props/c17"
 	_ "verifengine/props/c19"
 )
 
